@@ -420,7 +420,11 @@ class ATP_Store:
     def apply_debt_interest(self):
         """Apply interest to outstanding debt."""
         if self._debt > 0:
-            interest = int(self._debt * self.debt_interest)
+            try:
+                interest = int(self._debt * self.debt_interest)
+            except OverflowError:
+                # debt too large for a float: scale the rate instead of the debt
+                interest = self._debt * int(self.debt_interest * 10**9) // 10**9
             self._debt += interest
             if not self.silent:
                 print(f"💸 [Metabolism] Debt interest: +{interest} (total: {self._debt})")
